@@ -7,9 +7,8 @@ Import ListNotations.
 Open Scope string_scope.
 Open Scope list_scope.
 
-(* Construction.DELAYED_PARSING_DATATYPES (a literal of the class body) *)
-Definition delayed : list string :=
-  ["alignment_gfa1"; "alignment_gfa2"; "alignment_list_gfa1"; "oriented_segments"; "H"; "J"; "B"].
+(* Construction.DELAYED_PARSING_DATATYPES, regenerated *)
+Definition delayed : list string := T_DELAYED_PARSING_DATATYPES.
 
 (* a stored field: what is written before its value (nothing, or name:type:), its datatype, its text, and whether the
    stored object is the decoded value *)
